@@ -137,37 +137,16 @@ func (c *Ctx) prfPlusRules(r *Report, prefix string) {
 	r.Check(dominatesInstr(reset, write) && dominatesInstr(write, sum), rule, "lib.PrfPlus: Reset, then Write, then Sum", c.InstrPos(write), "in every iteration", "Reset/Write/Sum are not in this order on every iteration")
 	// Sum(streamφ)
 	r.Check(sum.Call.Args[0] == ssa.Value(streamPhi), rule, "lib.PrfPlus: stream = Sum(stream)", c.InstrPos(sum), "the MAC output is appended to the stream so far", "Sum is not applied to the accumulated stream")
-	// Write arg = append(append(blockφ, s...), [byte(iφ)]...)
+	// Write arg = block | s | byte(i), built by appends or in a buffer of the final size
 	okW, detail := false, "Write argument is not block | s | byte(i)"
-	if ap2, ok := write.Call.Args[0].(*ssa.Call); ok {
-		if bi, ok := ap2.Call.Value.(*ssa.Builtin); ok && bi.Name() == "append" {
-			if ap1, ok := ap2.Call.Args[0].(*ssa.Call); ok {
-				if bi, ok := ap1.Call.Value.(*ssa.Builtin); ok && bi.Name() == "append" {
-					if ap1.Call.Args[0] == ssa.Value(blockPhi) && paramIndex(fn, ap1.Call.Args[1]) == 1 {
-						// last: varargs slice of one element byte(i)
-						if sl, ok := ap2.Call.Args[1].(*ssa.Slice); ok {
-							if al, ok := sl.X.(*ssa.Alloc); ok {
-								for _, ref := range *al.Referrers() {
-									if ia, ok := ref.(*ssa.IndexAddr); ok {
-										for _, r2 := range *ia.Referrers() {
-											if st, ok := r2.(*ssa.Store); ok {
-												v := st.Val
-												if cv, ok := v.(*ssa.Convert); ok {
-													v = cv.X
-												}
-												if v == ssa.Value(iPhi) {
-													okW = true
-													detail = "Write(append(append(block, s...), byte(i)))"
-												}
-											}
-										}
-									}
-								}
-							}
-						}
-					}
-				}
-			}
+	fw := c.NewFA(fn)
+	if parts, ok := c.concatOf(fw, write.Call.Args[0], write, 0); ok {
+		want := []cpart{{Kind: "slice", Val: blockPhi}, {Kind: "slice", Val: fn.Params[1]}, {Kind: "byte", Val: iPhi}}
+		if sameParts(parts, want) {
+			okW = true
+			detail = "Write(block | s | byte(i))"
+		} else {
+			detail = "Write argument is " + partsString(fw, parts) + ", expected block | s | byte(i)"
 		}
 	}
 	r.Check(okW, rule, "lib.PrfPlus: data = T(n-1) | S | n", c.InstrPos(write), detail, detail)
